@@ -62,7 +62,7 @@ def _reader_branches(f: FuncInfo):
 
 
 def rule_tok1(ctx: Ctx) -> RuleResult:
-    rr = RuleResult("TOK-1", "path tokens and separators written by the generator are the ones the converter reads", floor=5)
+    rr = RuleResult("TOK-1", "path tokens and separators written by the generator are the ones the converter reads", floor=4)
     prog = ctx.prog
     w = prog.func(SC, "get_string_field_paths")
     r = prog.func(SC, "_process_string_field_value")
@@ -178,7 +178,7 @@ EXPECTED_KIND = {"DOptional": "token", "DList": "token", "DDict": "token"}
 
 
 def rule_tok2(ctx: Ctx) -> RuleResult:
-    rr = RuleResult("TOK-2", "the path writer has the right arm for every IR class inference can produce", floor=8)
+    rr = RuleResult("TOK-2", "the path writer has the right arm for every IR class inference can produce", floor=6)
     prog = ctx.prog
     w = prog.func(SC, "get_string_field_paths")
     arms, var = _writer_arms(ctx, w)
